@@ -1,6 +1,7 @@
 package worlds
 
 import (
+	"math"
 	"math/bits"
 	"runtime"
 	"weak"
@@ -785,13 +786,18 @@ func (w *dqW) growArg() int {
 
 func (w *dqW) shrinkArg() int {
 	c, _, _, _ := w.d.VerifState()
-	switch w.r.Choose(4, "shrink-class") {
+	switch w.r.Choose(6, "shrink-class") {
 	case 0:
 		return 0
 	case 1:
 		return -1
 	case 2:
 		return 1 + w.r.Choose(4, "shrink-small")
+	case 4:
+		// far more slack allowed than any buffer has: a no-op, also at the edge of int
+		return []int{1 << 40, math.MaxInt, math.MaxInt - 1, math.MinInt}[w.r.Choose(4, "shrink-huge")]
+	case 5:
+		return -1 - w.r.Choose(1<<20, "shrink-negative")
 	}
 	return c - w.m.n() + w.r.Choose(3, "shrink-slack")
 }
